@@ -547,12 +547,12 @@ Section Find.
   Lemma find_pipeline l q skip limit :
     filter_total l q -> 0 <= skip ->
     (let* sel := select (fun sd => matchf (snd sd) q) l (if 0 <? limit then limit + skip else limit) in
-     if skip <? 0 then Panic else Ok (drop skip sel)) =
+     Ok (drop skip sel)) =
     Ok (window skip limit (filter (matches q) l)).
   Proof.
     intros FT Hs.
     rewrite select_spec by exact FT.
-    cbn [bind]. replace (skip <? 0) with false by lia.
+    cbn [bind].
     unfold window. change (selb (fun sd => matchf (snd sd) q)) with (matches q).
     destruct (0 <? limit) eqn:C.
     - replace (0 <? limit + skip) with true by lia.
@@ -570,7 +570,7 @@ Section Find.
     assert (FT' : filter_total (stable_sort (sdoc_order cols) l) q).
     { intros sd Hin. apply FT.
       eapply Permutation_in; [symmetry; apply stable_sort_perm | exact Hin]. }
-    unfold find_list. destruct s as [|c t].
+    unfold find_list. replace (skip <? 0) with false by lia. destruct s as [|c t].
     - cbn in Hc. injection Hc as <-.
       rewrite stable_sort_all_eq by reflexivity.
       cbn [bind]. apply find_pipeline; assumption.
@@ -581,14 +581,14 @@ Section Find.
     filter_total l q -> 0 <= skip ->
     find_list matchf l q None skip limit = Ok (window skip limit (filter (matches q) l)).
   Proof.
-    intros l q skip limit FT Hs. unfold find_list. cbn [bind].
+    intros l q skip limit FT Hs. unfold find_list. replace (skip <? 0) with false by lia. cbn [bind].
     apply find_pipeline; assumption.
   Qed.
 
   (* an invalid sort specification is an error, whatever the documents *)
   Theorem find_bad_sort : forall l q c t skip limit,
     columns (c :: t) = Err -> find_list matchf l q (Some (c :: t)) skip limit = Err.
-  Proof. intros l q c t skip limit H. unfold find_list. rewrite H. reflexivity. Qed.
+  Proof. intros l q c t skip limit H. unfold find_list. rewrite H. destruct (skip <? 0); reflexivity. Qed.
 
   (* ---------------------------------------------------------------- *)
   (* sorted one-document writes act on the first element of the full
